@@ -212,16 +212,17 @@ def readSprite : Layout → Bytes → R (Option Sprite)
 /-- the `while indx < len(channelData)` loop; `rest` is `channelData[indx:]`, so that
     `frameData = channelData[indx:indx+frame_size]` is `rest.take frame_size` and `indx += frame_size` drops it -/
 def spriteLoop (lay : Layout) (rest : Bytes) : R (List (Option Sprite)) :=
-  if _h : 0 < rest.length then
+  match _h : rest with
+  | [] => .ok []                                       -- `indx < len(channelData)` is false
+  | _ :: _ =>
     match readSprite lay (rest.take lay.frameSize) with
     | .error e => .error e
     | .ok s =>
       match spriteLoop lay (rest.drop lay.frameSize) with
       | .error e => .error e
       | .ok ss => .ok (s :: ss)
-  else .ok []
 termination_by rest.length
-decreasing_by have := lay.frameSize_pos; simp only [List.length_drop]; omega
+decreasing_by have := lay.frameSize_pos; subst _h; simp only [List.length_drop, List.length_cons]; omega
 
 /-- VwscChannelParser.parse_vwsc_channels -/
 def parseChannels (lay : Layout) (buf : Bytes) : R Frame := do
